@@ -185,6 +185,16 @@ template <typename T> void all_engines(char const* tname)
     draws_plain<T, std::ranlux24>(tname, "ranlux24");
     draws_plain<T, std::ranlux48>(tname, "ranlux48");
     draws_plain<T, std::knuth_b>(tname, "knuth_b");
+    // ranges that are exact powers of two other than 2^32 / 2^64 (engine adaptors): the logarithm of the range is where implementations of
+    // std::generate_canonical round differently
+    draws_plain<T, std::independent_bits_engine<std::mt19937_64, 53, std::uint64_t>>(tname, "independent_bits_engine<mt19937_64, 53>");
+    draws_plain<T, std::independent_bits_engine<std::mt19937, 7, std::uint32_t>>(tname, "independent_bits_engine<mt19937, 7>");
+    draws_plain<T, std::independent_bits_engine<std::mt19937, 14, std::uint32_t>>(tname, "independent_bits_engine<mt19937, 14>");
+    draws_plain<T, std::independent_bits_engine<std::mt19937, 25, std::uint32_t>>(tname, "independent_bits_engine<mt19937, 25>");
+    draws_plain<T, std::independent_bits_engine<std::mt19937_64, 50, std::uint64_t>>(tname, "independent_bits_engine<mt19937_64, 50>");
+    draws_plain<T, std::linear_congruential_engine<unsigned long long, 6364136223846793005ULL, 1ULL, 18446744073709551557ULL>>(tname, "lcg m=2^64-59");
+    draws_plain<T, std::shuffle_order_engine<std::independent_bits_engine<std::mt19937, 28, std::uint32_t>, 16>>(tname, "shuffle_order_engine<independent_bits_engine<mt19937, 28>, 16>");
+    draws_adaptive<T, std::independent_bits_engine<std::mt19937_64, 53, std::uint64_t>>(tname, "independent_bits_engine<mt19937_64, 53>");
     draws_plain<T, synth<3>>(tname, "synthetic range 3");
     draws_plain<T, synth<1000>>(tname, "synthetic range 1000");
     draws_plain<T, synth<65537>>(tname, "synthetic range 65537");
